@@ -113,6 +113,27 @@ def enumerate_cases(tier, scope):
             for namespace in (None, 't'):
                 for via in ('inputs', 'outputs', 'absorb'):
                     yield {'source': SOURCE, 'dest': dests[di], 'mode': mode, 'rules': rules, 'namespace': namespace, 'options': {}, 'via': via, 'rename_source': [first, 'renamed']}
+    # include and exclude both given, one of them empty: refused like any other combination of the two
+    for mode in ('include+empty', 'exclude+empty'):
+        for rules in (['a'], ['ab.x', 'b']):
+            for namespace in (None, 't'):
+                for via in ('inputs', 'outputs', 'absorb'):
+                    yield {'source': SOURCE, 'dest': dests[1], 'mode': mode, 'rules': rules, 'namespace': namespace, 'options': {}, 'via': via}
+    # what is not wanted is left out of the call (the declared defaults of the parameters are used)
+    for size in (0, 1):
+        for rules in itertools.combinations(ALL_PATHS[:8], size):
+            for mode in ('include', 'exclude') if size else ('none',):
+                for namespace in (None, 't'):
+                    for via in ('inputs', 'outputs'):
+                        yield {'source': SOURCE, 'dest': dests[1], 'mode': mode, 'rules': list(rules), 'namespace': namespace, 'options': {}, 'via': via, 'omit_none': True}
+    # the destination spec has a namespace class of its own, the source the stock one; the source is exposed a second
+    # time into a namespace that the first expose copied
+    for via in ('inputs', 'outputs'):
+        for first_ns in ('t', None):
+            for sub in ('ab', 'abc', 'ab.xy'):
+                for dest_class in (True, False):
+                    yield {'source': SOURCE, 'dest': dests[0], 'mode': 'none', 'rules': [], 'namespace': first_ns, 'options': {}, 'via': via, 'dest_class': dest_class, 'then': {'namespace': (first_ns + '.' if first_ns else '') + sub + '.again'}}
+                    yield {'source': SOURCE, 'dest': dests[0], 'mode': 'none', 'rules': [], 'namespace': first_ns, 'options': {}, 'via': via, 'dest_class': dest_class, 'then': {'namespace': (first_ns + '.' if first_ns else '') + sub}}
     yield {'source': SOURCE, 'dest': dests[0], 'mode': 'both', 'rules': ['a'], 'namespace': None, 'options': {}, 'via': 'inputs'}
     yield {'source': SOURCE, 'dest': dests[0], 'mode': 'both', 'rules': ['a'], 'namespace': 't', 'options': {}, 'via': 'absorb'}
     for namespace in (None, 't', 't.u', 'fresh.deep'):
@@ -178,6 +199,7 @@ def _cases(draw, tier):
         'rules': rules,
         'namespace': draw(st.sampled_from([None, None, 't', 't.u', 'keep', ''])),
         'positional': draw(st.integers(0, 3)) == 0,
+        'omit_none': draw(st.integers(0, 3)) == 0,
         'options': options,
         'via': draw(st.sampled_from(['inputs', 'inputs', 'outputs', 'absorb'])),
         'sep': draw(st.sampled_from([None, None, None, '__', '/'])),
@@ -201,7 +223,7 @@ def _strip_defaults(tree):
     return tree
 
 
-def _make_process(name, tree, which, expose_from=None, expose_kwargs=None, sep=None):
+def _make_process(name, tree, which, expose_from=None, expose_kwargs=None, sep=None, own_ns_class=False, then=None):
     def define(cls, spec):
         super(klass, cls).define(spec)
         pm.build_namespace(spec, 'input' if which == 'inputs' else 'output', tree)
@@ -214,10 +236,15 @@ def _make_process(name, tree, which, expose_from=None, expose_kwargs=None, sep=N
             getattr(spec, 'expose_' + which)(expose_from, *expose_kwargs[1])  # the arguments in their documented order
         elif expose_from is not None:
             getattr(spec, 'expose_' + which)(expose_from, **expose_kwargs)
+        if then is not None:
+            getattr(spec, 'expose_' + which)(then[0], **then[1])
 
     body = {'define': classmethod(define)}
     if sep:
         body['_spec_class'] = pm.spec_class_for(sep)
+    elif own_ns_class:
+        # a spec class with its own namespace class (same separator), while the source uses the stock one
+        body['_spec_class'] = pm.spec_class_for('.')
     klass = type(name, (Process,), body)
     return klass
 
@@ -244,13 +271,21 @@ def execute(case):
     if rename:
         source = copy.deepcopy(source)
         source['ports'][rename[1]] = source['ports'].pop(rename[0])
-    include = case['rules'] if case['mode'] in ('include', 'both') else None
-    exclude = case['rules'] if case['mode'] in ('exclude', 'both') else None
+    include = case['rules'] if case['mode'] in ('include', 'both', 'include+empty') else None
+    exclude = case['rules'] if case['mode'] in ('exclude', 'both', 'exclude+empty') else None
+    if case['mode'] == 'include+empty':
+        exclude = []  # both given, one of them empty: still both given
+    elif case['mode'] == 'exclude+empty':
+        include = []
     namespace = case['namespace']
     options = case['options']
 
+    then = case.get('then')  # a second expose of the same source, into a namespace below the first one
     try:
-        expected = em.describe_model(em.expose(dest, source, namespace or None, include, exclude, options))  # ('' is "no namespace" too)
+        tree1 = em.expose(dest, source, namespace or None, include, exclude, options)  # ('' is "no namespace" too)
+        if then:
+            tree1 = em.expose(tree1, source, then['namespace'], None, None, {})
+        expected = em.describe_model(tree1)
         exp_error = None
     except ValueError as exc:
         expected, exp_error = None, exc
@@ -264,6 +299,9 @@ def execute(case):
         return None if rules is None else [real_path(r) for r in rules]
 
     kwargs = {'namespace': real_path(namespace), 'include': real_rules(include), 'exclude': real_rules(exclude), 'namespace_options': _real_options(options)}
+    if case.get('omit_none') and not case.get('positional'):
+        # what is not wanted is left out instead of being passed as None (the declared defaults are used)
+        kwargs = {key: val for key, val in kwargs.items() if val is not None and not (key == 'namespace_options' and not val)}
     got_error = None
     src_ns = dst_ns = None
     try:
@@ -283,7 +321,7 @@ def execute(case):
             src_cls = _make_process('Src', case['source'], via, sep=sep)
             if case.get('positional'):
                 kwargs = ('positional', [kwargs['namespace'], kwargs['exclude'], kwargs['include'], kwargs['namespace_options']])
-            dst_cls = _make_process('Dst', dest, via, expose_from=src_cls, expose_kwargs=kwargs, sep=sep)
+            dst_cls = _make_process('Dst', dest, via, expose_from=src_cls, expose_kwargs=kwargs, sep=sep, own_ns_class=bool(case.get('dest_class')), then=(src_cls, {'namespace': then['namespace']}) if then else None)
             src_ns = getattr(src_cls.spec(), via)
             if rename:
                 src_ns[rename[1]] = src_ns.pop(rename[0])
@@ -291,7 +329,7 @@ def execute(case):
     except Exception as exc:  # noqa: BLE001
         got_error = exc
 
-    if exp_error is not None and via != 'absorb' and case['mode'] == 'both':
+    if exp_error is not None and via != 'absorb' and case['mode'] in ('both', 'include+empty', 'exclude+empty') and not case.get('omit_none'):
         # a refused call leaves the destination as it was: tried on a spec object that can be looked at afterwards
         from plumpy import ProcessSpec
 
@@ -317,7 +355,7 @@ def execute(case):
     if exp_error is not None:
         if got_error is None:
             v('invalid-expose-accepted', f'{exp_error} - but the call succeeded')
-        elif case['mode'] == 'both' and not isinstance(got_error, ValueError):
+        elif case['mode'] in ('both', 'include+empty', 'exclude+empty') and not isinstance(got_error, ValueError):
             v('include-and-exclude-error-type', f'raised {type(got_error).__name__}, expected ValueError')
     elif got_error is not None:
         v('valid-expose-raised', f'{type(got_error).__name__}: {str(got_error)[:200]}')
